@@ -1,5 +1,63 @@
-(* Eval04.v — evaluation of C04 observations (stub: replaced when C04 is built). *)
-From Verif Require Import Base Sexp.
+(* Eval04.v — evaluation of C04 observations: generated deriveHash vs the model; Equal => same hash. *)
+From Coq Require Import String.
+From Verif Require Import Base Sexp Go.Ty Go.Val Go.Equal Go.Compare Go.Hash Eval03.
 Open Scope string_scope.
 
-Definition eval04 (e : sexp) : verdict := bad_line.
+Definition nres_sexp (r : res N) : sexp :=
+  match r with
+  | Ok c => L [Sym "ret"; L [Sym "i"; Num (Z.of_N c)]]
+  | Pan => Sym "panic" | Unsup => Sym "unsupported" | Stuck => Sym "stuck"
+  end.
+
+Definition eval04 (e : sexp) : verdict :=
+  match e with
+  | L [Sym k; tys; xs; L [Sym _; ret; L [Sym _; Num same]]] =>
+      if String.eqb k "hash+" then
+        match parse_ty tys, parse_val xs with
+        | Some t, Some x =>
+            let typed := has_type [] t x in
+            let m := hash_model t x in
+            {| v_known := typed;
+               v_model_ok := sexp_eqb (nres_sexp m) ret;
+               v_spec_ok := Z.eqb same 1;      (* the argument is unchanged *)
+               v_guard := typed; v_model := nres_sexp m;
+               v_tag := "hash/" ++ node_tag t |}
+        | _, _ => bad_line
+        end
+      else bad_line
+  | L [Sym k; tys; xs; ys; L [Sym _; hx; hy; eq]] =>
+      if String.eqb k "hasheq" then
+        match parse_ty tys, parse_val xs, parse_val ys, get_i hx, get_i hy, get_b eq with
+        | Some t, Some x, Some y, Some hx', Some hy', Some eq' =>
+            let typed := (has_type [] t x && has_type [] t y)%bool in
+            let se := spec_eq [] t x y in
+            {| v_known := typed;
+               v_model_ok := (sexp_eqb (nres_sexp (hash_model t x)) (L [Sym "ret"; hx])
+                              && sexp_eqb (nres_sexp (hash_model t y)) (L [Sym "ret"; hy])
+                              && match Equal.eqm [] Top t x y with Ok b => Bool.eqb b eq' | _ => false end)%bool;
+               (* values that derived Equal (and the structural reference) judge equal hash alike *)
+               v_spec_ok := (negb (eq' || match se with Some b => b | None => false end) || Z.eqb hx' hy')%bool;
+               v_guard := typed; v_model := nres_sexp (hash_model t x);
+               v_tag := "hasheq/" ++ node_tag t ++ "/" ++ (if eq' then "equal" else "different")
+                        ++ (if Z.eqb hx' hy' then "/same-hash" else "/different-hash") |}
+        | _, _, _, _, _, _ => bad_line
+        end
+      else bad_line
+  | L [Sym k; tys; Sym cls] =>
+      if String.eqb k "sup-hash" then
+        match parse_ty tys with
+        | Some t =>
+            let sup := (hash_sup t && eq_sup [] Top t)%bool in
+            let real_ok := String.eqb cls "ok" in
+            let real_err := String.eqb cls "generator-error" in
+            let crash := (String.eqb cls "panic" || String.eqb cls "timeout")%bool in
+            let ok := (crash || if sup then real_ok else real_err)%bool in
+            {| v_known := true; v_model_ok := ok; v_spec_ok := ok; v_guard := true;
+               v_model := Sym (if sup then "ok" else "generator-error");
+               v_tag := "support/" ++ (if crash then "generator-crash-see-C09"
+                                       else if sup then "supported" else "unsupported") |}
+        | None => bad_line
+        end
+      else bad_line
+  | _ => bad_line
+  end.
